@@ -8,7 +8,7 @@ SEEDS = ["Seed1", "Seed2", "Seed3", "Seed4", "Seed5"]
 
 
 def export_pairs(tier, d):
-    jobs = [dict(module="SqliteModelMC", cfg="SqliteModelMC.cfg", defines={"Seed": s, "Two": "FALSE"}, heap="8g", timeout=3600, keep=True) for s in SEEDS]
+    jobs = [dict(module="SqliteModelMC", cfg="SqliteModelMC.cfg", defines={"Seed": s, "Two": "FALSE", "Sample": 0}, heap="8g", timeout=3600, keep=True) for s in SEEDS]
     rs = vf.tlc_many(jobs, parallel=5)
     out = os.path.join(d, "pairs.ndjson")
     n = 0
@@ -69,7 +69,10 @@ def case_of(o, name):
     for t, k, _, _ in delta:
         by_table.setdefault(t, set()).add(k)
     toggled = any(ks == {"autoinc"} for ks in by_table.values())
-    return {"part": "engine", "formula": name, "edit_fields": ",".join(sorted({x[1] for x in delta})), "autoincrement_only_edit_on_a_table": toggled, "edit": delta}
+    # AUTOINCREMENT toggled on a table whose primary key stays the same (whatever else changes in that table)
+    samekey = any("autoinc" in ks and "pk" not in ks for ks in by_table.values())
+    return {"part": "engine", "formula": name, "edit_fields": ",".join(sorted({x[1] for x in delta})), "autoincrement_only_edit_on_a_table": toggled,
+            "autoincrement_toggled_key_unchanged": samekey, "edit": delta}
 
 
 def detail_of(o):
